@@ -83,7 +83,10 @@ def run_instances(prop, mod_name, instances, ctx, level="model_checking", assump
             if agg["completed"] == 0 and not agg["violations"] and not agg["inconclusive"]:
                 inconc.append(f"{inst.name}: no path reached the end of the harness (vacuous)")
             # native replay of counterexamples
+            confirmed_roles = set()
             for v in agg["violations"]:
+                if v["role"] in confirmed_roles:
+                    continue                    # one natively confirmed counterexample per role and instance is enough
                 try:
                     cmd, case = inst.native(v["inputs"])
                 except NotImplementedError:
@@ -105,6 +108,8 @@ def run_instances(prop, mod_name, instances, ctx, level="model_checking", assump
                             v = dict(v, desc=v["desc"] + " [reproduced natively on the amplified history]")
                 h = hashlib.sha1(json.dumps(v["inputs"], sort_keys=True, default=str).encode()).hexdigest()[:8]
                 path = replay.save_case(prop, f"{inst.name}-{v['role'].replace(':', '_').replace('/', '_')[:60]}-{h}", cmd, case) if cmd else None
+                if confirmed:
+                    confirmed_roles.add(v["role"])
                 viols.append({"role": v["role"], "desc": f"[{inst.name}] {v['desc']} inputs={json.dumps(v['inputs'], default=str)[:400]} native={json.dumps(outs)[:300]}",
                               "replay": path, "confirmed": confirmed, "instance": inst.name})
             # translator validation: concrete runs through mirsym vs the native build
